@@ -519,6 +519,15 @@ type Lemma struct {
 	Line string
 }
 
+// StructDecl is a whole-package structural claim (constglobal / immutable) checked by a scan of every SSA function.
+type StructDecl struct {
+	Kind string // constglobal | immutable | initvalue
+	Name string
+	Vals []string // initvalue: the function names the slice literal must list, in order
+	Tags []string
+	Line string
+}
+
 type Abstract struct {
 	Name   string // $sp
 	Iface  string // callFrameStack
@@ -534,6 +543,8 @@ type Uninterp struct {
 
 type SpecDB struct {
 	ConstGlobals map[string]bool
+	Immutable    map[string]bool // "T.f": field written only while its object is being constructed
+	Structural   []*StructDecl
 	Uninterps map[string]*Uninterp
 	Axioms    []*Lemma
 	Abstracts map[string]*Abstract
@@ -553,7 +564,7 @@ var clauseKeywords = map[string]bool{"func": true, "iface": true, "extern": true
 	"lemma": true, "requires": true, "ensures": true, "raises": true, "noraise": true, "noreturn": true,
 	"modifies": true, "loop": true, "assert": true, "mode": true, "inline": true, "pure": true,
 	"outside-subset": true, "assume": true, "may-panic": true, "nosafe": true, "end": true, "bounded": true,
-	"abstract": true, "implements": true, "cut": true, "uninterp": true, "axiom": true, "logged": true, "constglobal": true}
+	"abstract": true, "implements": true, "cut": true, "uninterp": true, "axiom": true, "logged": true, "constglobal": true, "immutable": true, "initvalue": true}
 
 func splitTags(s string) []string {
 	s = strings.Trim(s, "[] ")
@@ -562,7 +573,7 @@ func splitTags(s string) []string {
 }
 
 func loadSpecFiles(repo string) (*SpecDB, error) {
-	db := &SpecDB{Contracts: map[string]*Contract{}, Defines: map[string]*Define{}, Invs: map[string]*Define{}, Abstracts: map[string]*Abstract{}, Uninterps: map[string]*Uninterp{}, ConstGlobals: map[string]bool{}}
+	db := &SpecDB{Contracts: map[string]*Contract{}, Defines: map[string]*Define{}, Invs: map[string]*Define{}, Abstracts: map[string]*Abstract{}, Uninterps: map[string]*Uninterp{}, ConstGlobals: map[string]bool{}, Immutable: map[string]bool{}}
 	files := []string{"contracts_verif.go", "pm/contracts_verif.go", "parse/contracts_verif.go"}
 	more, _ := filepath.Glob(filepath.Join(repo, "contracts_verif_*.go"))
 	for _, m := range more {
@@ -697,8 +708,25 @@ func (db *SpecDB) parseFile(fname, prefix, data string) {
 		case "constglobal":
 			for _, n := range strings.Fields(rest) {
 				db.ConstGlobals[prefix+n] = true
+				db.Structural = append(db.Structural, &StructDecl{Kind: "constglobal", Name: prefix + n, Tags: ctags, Line: loc})
 			}
-			db.Assumes = append(db.Assumes, fmt.Sprintf("package variable(s) %s are assigned only during package initialisation (treated as constants; stores to them by verified code are rejected)", rest))
+		case "initvalue":
+			// initvalue g = f1 f2 ... : package variable g (a slice of functions) is initialised to exactly [f1, f2, ...]
+			// and neither g nor its elements are assigned anywhere else
+			eq := strings.Index(rest, "=")
+			if eq < 0 {
+				errf("initvalue needs '='")
+				continue
+			}
+			n := strings.TrimSpace(rest[:eq])
+			db.ConstGlobals[prefix+n] = true
+			db.Structural = append(db.Structural, &StructDecl{Kind: "initvalue", Name: prefix + n, Tags: ctags, Line: loc, Vals: strings.Fields(rest[eq+1:])})
+		case "immutable":
+			// immutable T.f ... : the field is stored only into objects allocated in the storing function (construction)
+			for _, n := range strings.Fields(rest) {
+				db.Immutable[prefix+n] = true
+				db.Structural = append(db.Structural, &StructDecl{Kind: "immutable", Name: prefix + n, Tags: ctags, Line: loc})
+			}
 		case "uninterp":
 			// uninterp name(p T, q U) R
 			lp := strings.Index(rest, "(")
@@ -920,6 +948,17 @@ func (db *SpecDB) parseFile(fname, prefix, data string) {
 				}
 			case "assert":
 				// assert@"text" E
+				if strings.HasPrefix(body, "assert@`") {
+					// assert@`text with "quotes"` E
+					r := body[len("assert@`"):]
+					j := strings.Index(r, "`")
+					if j < 0 {
+						errf("assert anchor unterminated")
+						continue
+					}
+					cur.Asserts = append(cur.Asserts, &Clause{Kind: "assert", Label: r[:j], E: pe(r[j+1:]), Tags: ctags, Line: loc})
+					continue
+				}
 				if !strings.HasPrefix(rest, "@\"") && !strings.HasPrefix(body, "assert@\"") {
 					errf("assert needs @\"anchor\"")
 					continue
